@@ -82,6 +82,10 @@ def equiv(op, il, mres):
     if il == mres:
         return True
     kind = op.split(" ", 2)[1]
+    if mres.startswith("err pgp?") and il.startswith("err "):
+        # the signature blob of this (malformed) file is not in the op's packet table: the model only knows that the OpenPGP
+        # reader is asked about a blob nobody tabulated; any refusal agrees with it
+        return True
     if kind == "mutate" and il.startswith("ok") and mres.startswith("ok"):
         a, b = il.split(" ")[1:], mres.split(" ")[1:]
         return len(a) == len(b) and all(x == y or y == "any" for x, y in zip(a, b))
@@ -313,6 +317,10 @@ def matches_known(k, op, il, mres, tag):
         m = re.match(r"panic (\w+)", il)
         return bool(m) and _site(mres) in ident.get("sites", []) and _site(mres).startswith(m.group(1) + ":")
     if out == "alloc":
+        if il.startswith("crash rc=-9") and " A=1" in mres:
+            # the allocation the model announces (A=1: a header-declared size far beyond the file) got the process killed
+            # by the kernel before it answered: the same finding
+            return True
         return " A=1" in il and " A=1" in mres and equiv(op, il, mres)
     if out == "audit-digest":
         return f[1] == "sign" and il.startswith("ok ") and equiv(op, il, mres)
